@@ -115,3 +115,37 @@ def c44(res, tier, seed):
                 "random lists over abstract segments and over real corpus field names (random descriptor walks + 7 damage operators)"
                 % "")
     res.assumptions.append("the schema facts (field name, kind, cardinality, message type) are exported from the real descriptors by the harness")
+
+
+# ============================================================================ C23
+@check("C23")
+def c23(res, tier, seed):
+    b = build_harness(("wkt",))
+    quick = tier == "quick"
+    tour = os.path.join(scratch(), "c23t.tour")
+    r = tlc("MC_WktTime", cfg({"Tier": '"%s"' % tier, "DurLen": 4 if quick else 6}, invariants=["Laws"], emit="Emit"), emit_to=tour, timeout=3000)
+    res.add_tlc(r, "Duration: all strings <= %d over {-+.019s space} + edit neighbourhoods of boundary literals; Timestamp: edit neighbourhoods "
+                   "of RFC 3339 seeds; corner (seconds, nanos) pairs; laws: automaton = decomposition, accepted => valid, "
+                   "canonical output parses back, marshal ok <=> valid" % (4 if quick else 6))
+    res.exhaustive = True
+
+    def tkey(e):
+        o = e.get("exp") or e.get("out") or {}
+        if e["op"] in ("durparse", "tsparse"):
+            s = _txt(e["s"])
+            return [e["op"], o.get("ok"), min(len(s), 12) if e["op"] == "durparse" else len(s), sum(ch in s for ch in "-+.,:TZtz s")]
+        if e["op"] in ("tojson", "fromjson"):
+            t = e["m"]["t"] if e["op"] == "tojson" else e["t"]
+            shape = json.dumps(e.get("j", e.get("m")))
+            return [e["op"], t, o.get("ok"), shape.count('"k"') + shape.count('"t"'), (e.get("j") or {}).get("k", "")]
+        return [e["op"], o.get("ok"), len(o.get("str", [])), _txt(e["secs"])[:1], _txt(e["nanos"])[:1]]
+    replay_tour(res, b, "wkt", tour, key=tkey)
+    tour2 = os.path.join(scratch(), "c23f.tour")
+    r = tlc("MC_WktForms", cfg({"Tier": '"%s"' % tier, "FmLen": 3 if quick else 5, "Depth": 1 if quick else 2}, invariants=["Laws"], emit="Emit"),
+            emit_to=tour2, timeout=3000)
+    res.add_tlc(r, "FieldMask strings <= %d over {aB_1., space}; wrapper range limits; Value/Struct/ListValue of depth <= %d; Any: embedded corner "
+                   "messages x URL classes, member sequences <= 3; cross-type parsing; laws: marshal;parse = id, parse;marshal;parse stable, "
+                   "camel/snake reversibility = shape, base64 inverse" % (3 if quick else 5, 1 if quick else 2))
+    replay_tour(res, b, "wkt", tour2, key=tkey)
+    n = 5000 if quick else 200000
+    drive_and_validate(res, b, "wkt", "Trace_Wkt", seed, n, key=tkey)
